@@ -36,9 +36,54 @@ def perturb(cfg):
         m.add(h.Signal(width=3), name="s")
         m.add(h.Instance(of=h.R(r=k + 1))(p=m.s[0], n=m.s[1]), name="r")
         h.elaborate(m)
+    # unrelated PDK compiles of devices whose sizes are numerically equal to, but written differently from, the program's
+    for k in range(cfg.get("junk_pdk", 0)):
+        for kind in PDKS:
+            try:
+                t = pdk_design(kind, f"JunkPdk{k}", alt=k + 1)
+                pdk_module(kind).compile(t)
+            except Exception:
+                pass
     if not cfg.get("gc", True):
         gc.disable()
     return junk
+
+
+PDKS = ("sample", "sky130", "gf180", "asap7")
+
+
+def pdk_module(kind):
+    import importlib
+
+    return importlib.import_module("hdl21.pdk.sample_pdk" if kind == "sample" else f"{kind}_hdl21")
+
+
+def pdk_design(kind, name, alt=0):
+    """A two-level design of generic primitives.  alt > 0: the same VALUES written with other prefixes."""
+    import hdl21 as h
+    from hdl21.prefix import n, µ, m, K
+    from hdl21.primitives import MosType
+
+    spell = [
+        dict(w=1 * µ, l=150 * n, w2=2 * µ, r=1 * K, c=1 * n),
+        dict(w=1000 * n, l=0.15 * µ, w2=0.002 * m, r=1000, c=0.001 * µ),
+        dict(w=0.001 * m, l=0.00015 * m, w2=2000 * n, r=0.001 * 1000 * K, c=1000 * 0.001 * n),
+    ][alt % 3]
+    nm = {"sky130": "NMOS_1p8V_STD", "gf180": "NFET_3p3V"}.get(kind)
+    pm = {"sky130": "PMOS_1p8V_STD", "gf180": "PFET_3p3V"}.get(kind)
+    inv = h.Module(name=name + "Inv")
+    inv.i, inv.o, inv.VDD, inv.VSS = h.Input(), h.Output(), h.Port(), h.Port()
+    nk = dict(model=nm) if nm else dict(tp=MosType.NMOS)
+    pk = dict(model=pm) if pm else dict(tp=MosType.PMOS)
+    inv.mn = h.Mos(w=spell["w"], l=spell["l"], **nk)(d=inv.o, g=inv.i, s=inv.VSS, b=inv.VSS)
+    inv.mp = h.Mos(w=spell["w2"], l=spell["l"], **pk)(d=inv.o, g=inv.i, s=inv.VDD, b=inv.VDD)
+    top = h.Module(name=name)
+    top.a, top.b, top.c, top.VDD, top.VSS = h.Signal(), h.Signal(), h.Signal(), h.Signal(), h.Signal()
+    top.i0 = inv(i=top.a, o=top.b, VDD=top.VDD, VSS=top.VSS)
+    top.i1 = inv(i=top.b, o=top.c, VDD=top.VDD, VSS=top.VSS)
+    top.r = h.R(r=spell["r"])(p=top.c, n=top.a)
+    top.cc = h.C(c=spell["c"])(p=top.c, n=top.VSS)
+    return top
 
 
 def directed(design):
@@ -87,6 +132,24 @@ def run(seed, n, cfg):
             except Exception as e:
                 entry[fmt] = f"raised:{type(e).__name__}"
         res[label] = entry
+    # PDK-compiled designs
+    for kind in PDKS:
+        label = f"pdk:{kind}"
+        try:
+            t = pdk_design(kind, f"C12Pdk_{kind}")
+            pdk_module(kind).compile(t)
+            pkg = h.to_proto(t)
+            entry = {"pkg": sha(pkg.SerializeToString(deterministic=True))}
+            for fmt in ("spice", "spectre"):
+                try:
+                    dest = io.StringIO()
+                    h.netlist(pkg, dest, fmt=fmt)
+                    entry[fmt] = sha(dest.getvalue())
+                except Exception as e:
+                    entry[fmt] = f"raised:{type(e).__name__}"
+            res[label] = entry
+        except Exception as e:
+            res[label] = {"pkg": f"raised:{type(e).__name__}"}
     # built-in generators and an example
     from hdl21.generators import Series, MosStack
 
